@@ -264,8 +264,11 @@ impl<D: DataMut> GLWEAutomorphismKey<D> {
 impl<D: DataMut> ReaderFrom for GLWEAutomorphismKey<D> {
     /// Deserialises from little-endian binary format.
     fn read_from<R: std::io::Read>(&mut self, reader: &mut R) -> std::io::Result<()> {
-        self.p = reader.read_u64::<LittleEndian>()? as i64;
-        self.key.read_from(reader)
+        // Temporary first: `self` is only touched once the whole object has been read.
+        let p: i64 = reader.read_u64::<LittleEndian>()? as i64;
+        self.key.read_from(reader)?;
+        self.p = p;
+        Ok(())
     }
 }
 
